@@ -108,6 +108,7 @@ structure St where
   ptoks : List PTok := []            -- index = `tok` field of a code store entry
   hub : Hub.Hub := {}
   info : List ConnInfo := []
+  grants : List (Bearer × String × Int) := []   -- ghost: (bearer, requested id, time) of every granted session, index = tok
 deriving Repr
 
 /-- Go `strconv.ParseInt(s, 10, 64)` -/
@@ -168,7 +169,7 @@ def sessionGrant (cfg : Config) (s : St) (b : Bearer) (id : String) : St × Resp
                      iat := b.iat.getD 0, nbf := b.nbf.getD 0, exp := exp, aud := [cfg.target] }
   ({ s with reg := Deny.step s.reg (.allow b.bid exp),
             codes := (TtlCode.step s.codes (.submit b.bid s.ptoks.length)).1,
-            ptoks := s.ptoks ++ [pt] },
+            ptoks := s.ptoks ++ [pt], grants := s.grants ++ [(b, id, s.now)] },
     .sessionOK s.codes.next (cfg.target ++ "/" ++ b.pfx ++ "/" ++ b.topic))
 
 /-- is the id routable by `POST /session/{session_id}` (one non-empty path segment)? -/
